@@ -120,6 +120,18 @@ def _strategy(sd, via):
   return sd[via] if len(via) % 2 else getattr(sd, via)
 
 
+BIG = [15, 16, 17, 31, 32, 33, 63, 64, 65, 70]   # beyond the first few: powers of two and their neighbours
+
+
+def gen_mav_big(tier, rng):
+  for size in BIG:
+    for k in range(1 if tier == "quick" else 4):
+      xs = [fr(Fraction(rng.randrange(-9, 10), rng.choice([1, 1, 2]))) for _ in range(size + 5)]
+      zero = [[2, 1], [0, 1], [-1, 3]][(size + k) % 3]
+      for s in MAVS:
+        yield {"s": s, "size": size, "zero": zero, "xs": xs, "tags": ["mav", s, "big", "size=%d" % size]}
+
+
 def run_mav(c):
   import audiolazy
   try:
@@ -148,6 +160,10 @@ def gen_lin(tier, rng):
     for n in range(0, maxlen):
       for s in MAVS:
         yield {"tool": "mav", "s": s, "size": size, "n": n, "tags": ["lin", "mav", s, "size=%d" % size]}
+  if tier != "quick":   # symbolic samples at sizes around powers of two
+    for size in (16, 17, 32):
+      for s in MAVS:
+        yield {"tool": "mav", "s": s, "size": size, "n": size + 3, "tags": ["lin", "mav", s, "big"]}
   for n in range(0, maxlen + 3):
     for s in ACCS:
       yield {"tool": "acc", "s": s, "n": n, "tags": ["lin", "acc", s]}
@@ -248,6 +264,15 @@ def gen_amdf(tier, rng):
   # (the recorded witness itself is corpus/C20/amdf_lag0_zero.json, which runs first)
 
 
+def gen_amdf_big(tier, rng):
+  for lag in BIG[:-1] + [16.5, 32.25, 63.75]:
+    assert lag_exact(lag)
+    for size in ((2,) if tier == "quick" else (1, 2, 3)):
+      xs = [fr(Fraction(rng.randrange(-9, 10), rng.choice([1, 1, 2]))) for _ in range(int(lag) + 6)]
+      yield {"lag": float(lag).hex() if isinstance(lag, float) else lag, "size": size, "zero": rng.choice([None, [1, 3], [-1, 1]]),
+             "xs": xs, "tags": ["amdf", "big", "lag=%s" % lag]}
+
+
 def _lag(c):
   return float.fromhex(c["lag"]) if isinstance(c["lag"], str) else int(c["lag"])
 
@@ -280,14 +305,14 @@ def known_amdf(c, o):
 
 
 # ------------------------------------------------------------------ envelope
-CUTOFFS = [None, 0.3, 1.0, math.pi, math.pi / 2, 0.01, 0.0]
+CUTOFFS = [None, 0.3, 1.0, math.pi, math.pi / 2, 0.01, 0.0, math.pi - 1e-9, 1e-9, 3.0]   # incl. both ends of [0, pi]
 
 
 def gen_env_of(s):
   def gen_env(tier, rng):
-    n = 5 if tier == "quick" else 50
+    n = 3 if tier == "quick" else 30
     for ci, cutoff in enumerate(CUTOFFS):
-      if cutoff == 0.0 and s == "rms":
+      if cutoff is not None and cutoff < 1e-6 and s == "rms":
         continue  # the all-zero float output 0.0 ** .5 is a float, not a symbolic root
       for k in range(n):
         # short inputs: every output multiplies the denominators by 2^53 or more
@@ -314,7 +339,7 @@ def run_env(c):
     rect = [abs(x) for x in xs] if c["s"] == "abs" else [x * x for x in xs]
     direct = [fr(to_frac(v)) for v in filt(rect)]
   except Exception as e:
-    return {"raise": "Harness" + type(e).__name__, "g": [0, 1], "a1": [0, 1], "direct": []}
+    return {"raise": "Harness" + type(e).__name__, "g": [0, 1], "a1": [0, 1], "cw": [1, 1], "direct": []}
   try:
     env = audiolazy.envelope if (c["s"] == "rms" and len(c["xs"]) % 2) else audiolazy.envelope[c["s"]]  # rms = the default call
     out = env(xs) if c["cutoff"] is None else env(xs, cutoff=cutoff)
@@ -324,19 +349,56 @@ def run_env(c):
         vals.append(["sqrt", fr(to_frac(v.arg))])
       else:
         vals.append(["plain", fr(to_frac(v))])
-    return {"ok": vals, "g": g, "a1": a1, "direct": direct}
+    return {"ok": vals, "g": g, "a1": a1, "cw": fr(Fraction(math.cos(cutoff))), "direct": direct}
   except Exception as e:
-    return {"raise": type(e).__name__, "g": g, "a1": a1, "direct": direct}
+    return {"raise": type(e).__name__, "g": g, "a1": a1, "cw": fr(Fraction(math.cos(cutoff))), "direct": direct}
 
 
 def lit_env(c, o):
   f = lambda vals: L.lst([("Sqrt %s" if k == "sqrt" else "Plain %s") % q(v) for k, v in vals])
-  return "(EV %s %s %s %s %s %s)" % (ENV_COQ[c["s"]], q(o["g"]), q(o["a1"]), qlist(c["xs"]), qlist(o["direct"]),
-                                      res_lit(o, f))
+  return "(EV %s %s %s %s %s %s %s)" % (ENV_COQ[c["s"]], q(o["g"]), q(o["a1"]), q(o["cw"]), qlist(c["xs"]),
+                                         qlist(o["direct"]), res_lit(o, f))
 
 
 def nt_env(c, o):
   return len(c["xs"]) >= 3 and any(x[0] < 0 for x in c["xs"]) and c["cutoff"] != float(0).hex()
+
+
+# ------------------------------------------------------------------ envelope with a Stream of cut-off values
+def gen_envtv(tier, rng):
+  ends = [0.0, math.pi, math.pi - 1e-9, 1e-9, math.pi / 512, 0.3, 1.0, 2.5]
+  for s in ENVS:
+    for rep in range(4 if tier == "quick" else 30):
+      n = rng.randrange(1, 6)
+      cut = [rng.choice(ends) for _ in range(n + rng.choice([0, 0, 1, -1]))]
+      if s == "rms":
+        cut = [c if c > 1e-6 else 0.3 for c in cut]   # g = 0: the output 0.0 ** .5 is a float, not a symbolic root
+      yield {"s": s, "cutoffs": [float(c).hex() for c in cut], "xs": rand_xs(rng, n),
+             "tags": ["envtv", s, "len=%d" % n]}
+
+
+def run_envtv(c):
+  import audiolazy
+  cut = [float.fromhex(h) for h in c["cutoffs"]]
+  coefs = []
+  try:
+    for w in cut:   # scalar design calls: one filter per element of the cutoff stream
+      g, a1 = _lowpass_coeffs(audiolazy.lowpass(w))
+      coefs.append([g, a1, fr(Fraction(math.cos(w)))])
+  except Exception as e:
+    return {"raise": "Harness" + type(e).__name__, "coefs": []}
+  try:
+    out = audiolazy.envelope[c["s"]](Qs(c["xs"]), cutoff=audiolazy.Stream(cut))
+    vals = [["sqrt", fr(to_frac(v.arg))] if isinstance(v, SymSqrt) else ["plain", fr(to_frac(v))] for v in out]
+    return {"ok": vals, "coefs": coefs}
+  except Exception as e:
+    return {"raise": type(e).__name__, "coefs": coefs}
+
+
+def lit_envtv(c, o):
+  f = lambda vals: L.lst([("Sqrt %s" if k == "sqrt" else "Plain %s") % q(v) for k, v in vals])
+  return "(TV %s %s %s %s)" % (ENV_COQ[c["s"]], L.lst(["(%s, %s, %s)" % (q(g), q(a), q(w)) for g, a, w in o["coefs"]]),
+                               qlist(c["xs"]), res_lit(o, f))
 
 
 # ------------------------------------------------------------------ clip
@@ -729,11 +791,14 @@ FAMILIES = {
   "multi": Family("multi", IMPORTS, "mucase", "corr_multi", "holds_multi", gen_multi, run_multi, lit_multi, nt_multi),
   "lin": Family("lin", IMPORTS, "lincase", "corr_lin", "holds_lin", gen_lin, run_lin, lit_lin, nt_lin),
   "mav": Family("mav", IMPORTS, "mvcase", "corr_mav", "holds_mav", gen_mav, run_mav, lit_mav, nt_mav),
+  "mav_big": Family("mav_big", IMPORTS, "mvcase", "corr_mav", "holds_mav", gen_mav_big, run_mav, lit_mav, nt_mav),
+  "amdf_big": Family("amdf_big", IMPORTS, "amcase", "corr_amdf", "holds_amdf", gen_amdf_big, run_amdf, lit_amdf, nt_amdf, known_amdf),
   "acc": Family("acc", IMPORTS, "accase", "corr_acc", "holds_acc", gen_acc, run_acc, lit_acc),
   "amdf": Family("amdf", IMPORTS, "amcase", "corr_amdf", "holds_amdf", gen_amdf, run_amdf, lit_amdf, nt_amdf, known_amdf),
   "env_rms": Family("env_rms", IMPORTS, "evcase", "corr_env", "holds_env", gen_env_of("rms"), run_env, lit_env, nt_env),
   "env_abs": Family("env_abs", IMPORTS, "evcase", "corr_env", "holds_env", gen_env_of("abs"), run_env, lit_env, nt_env),
   "env_squared": Family("env_squared", IMPORTS, "evcase", "corr_env", "holds_env", gen_env_of("squared"), run_env, lit_env, nt_env),
+  "envtv": Family("envtv", IMPORTS, "tvcase", "corr_tv", "holds_tv", gen_envtv, run_envtv, lit_envtv),
   "clip": Family("clip", IMPORTS, "clcase", "corr_clip", "holds_clip", gen_clip, run_clip, lit_clip, nt_clip),
   "zc": Family("zc", IMPORTS, "zccase", "corr_zc", "holds_zc", gen_zc, run_zc, lit_zc, nt_zc),
   "uw": Family("uw", IMPORTS, "uwcase", "corr_uw", "holds_uw", gen_uw, run_uw, lit_uw, nt_uw),
